@@ -213,6 +213,75 @@ mod structs {
 }
 pub use structs::*;
 
+/// Verification hooks (compiled only with `--cfg narsese_verif`): a thread-local event sink that records
+/// the window cut by `parse_items` and, for every call of the recursive segmenters, the environment it
+/// was given and what it returned. Nothing is recorded unless a test harness installs the sink.
+#[cfg(narsese_verif)]
+pub mod verif_trace {
+    use super::{ParseIndex, ParseResult, Term};
+    use std::cell::{Cell, RefCell};
+    thread_local! {
+        static SINK: RefCell<Option<Vec<String>>> = const { RefCell::new(None) };
+        static INNER: Cell<bool> = const { Cell::new(false) };
+    }
+    /// start recording on this thread
+    pub fn install() {
+        SINK.with(|s| *s.borrow_mut() = Some(vec![]));
+        INNER.with(|f| f.set(false));
+    }
+    /// stop recording and hand the events over
+    pub fn take() -> Vec<String> {
+        SINK.with(|s| s.borrow_mut().take().unwrap_or_default())
+    }
+    pub(super) fn emit(event: impl FnOnce() -> String) {
+        SINK.with(|s| {
+            if let Some(v) = s.borrow_mut().as_mut() {
+                v.push(event())
+            }
+        });
+    }
+    /// A segmenter asks on entry whether this call is to be wrapped: the wrapper calls the same function once
+    /// more (that inner call sees the flag and runs the real body), then records environment and result.
+    pub(super) fn wrap_this_call() -> bool {
+        if !SINK.with(|s| s.borrow().is_some()) {
+            return false;
+        }
+        INNER.with(|f| {
+            if f.get() {
+                f.set(false);
+                false
+            } else {
+                f.set(true);
+                true
+            }
+        })
+    }
+    pub(super) fn segment(which: &str, env: &[char], result: &ParseResult<(Term, ParseIndex)>) {
+        emit(|| {
+            let text: String = env.iter().collect();
+            match result {
+                Ok((_, right)) => format!(r#"{{"ev":"segment","fn":"{}","env":{},"ok":true,"right":{}}}"#, which, text_json(&text), right),
+                Err(_) => format!(r#"{{"ev":"segment","fn":"{}","env":{},"ok":false,"right":0}}"#, which, text_json(&text)),
+            }
+        });
+    }
+    /// the environment as a JSON string literal
+    fn text_json(text: &str) -> String {
+        let mut out = String::with_capacity(text.len() + 2);
+        out.push('"');
+        for c in text.chars() {
+            match c {
+                '"' => out.push_str("\\\""),
+                '\\' => out.push_str("\\\\"),
+                c if (c as u32) < 0x20 => out.push_str(&format!("\\u{:04x}", c as u32)),
+                c => out.push(c),
+            }
+        }
+        out.push('"');
+        out
+    }
+}
+
 // 词法解析 正式逻辑开始 //
 
 /// 用于把「自由函数」封装成「实例方法」
@@ -319,6 +388,9 @@ impl ParseState<'_> {
         let punctuation = self.segment_punctuation(&env[..right_border]);
         // 默认值 "" | 词项的索引上界（不含）
         let (punctuation, right_border) = punctuation.right_unwrap_or(right_border);
+        #[cfg(narsese_verif)]
+        verif_trace::emit(|| format!(r#"{{"ev":"cuts","len":{},"begin":{},"right":{},"budget":{},"truth":{},"stamp":{},"punctuation":{}}}"#,
+            env.len(), begin_index, right_border, budget.is_some(), truth.is_some(), stamp.is_some(), punctuation.is_some()));
 
         // 前后缀切割完毕，最后解析出词项 //
         // 获得「词项」的「字符数组切片」
@@ -683,6 +755,12 @@ impl ParseState<'_> {
     /// * 🚩因为「递归解析」需要传递信息，故需要额外传递索引
     /// * 📌不传递额外信息、直接传递字符串的才能叫「parse」
     fn segment_term(&self, env: ParseEnv) -> ParseResult<(Term, ParseIndex)> {
+        #[cfg(narsese_verif)]
+        if verif_trace::wrap_this_call() {
+            let result = self.segment_term(env);
+            verif_trace::segment("term", env, &result);
+            return result;
+        }
         // 先解析「集合词项」
         if let Ok(result) = self.segment_term_set(env) {
             return Ok(result);
@@ -714,6 +792,12 @@ impl ParseState<'_> {
     ///   * 📍解决方案：直接作为「陈述解析」的特殊情况对待
     /// * 🚩【2024-03-19 19:02:38】现在添加「额外停止条件」用以应对「吃掉系词」的情况
     fn segment_atom(&self, env: ParseEnv) -> ParseResult<(Term, ParseIndex)> {
+        #[cfg(narsese_verif)]
+        if verif_trace::wrap_this_call() {
+            let result = self.segment_atom(env);
+            verif_trace::segment("atom", env, &result);
+            return result;
+        }
         // 尝试解析出前缀
         let prefix = self
             // 匹配前缀
@@ -755,6 +839,12 @@ impl ParseState<'_> {
 
     /// 解析集合词项
     fn segment_term_set(&self, env: ParseEnv) -> ParseResult<(Term, ParseIndex)> {
+        #[cfg(narsese_verif)]
+        if verif_trace::wrap_this_call() {
+            let result = self.segment_term_set(env);
+            verif_trace::segment("set", env, &result);
+            return result;
+        }
         // 前缀匹配并跳过左括弧
         let (left, right) = self
             .format
@@ -801,6 +891,12 @@ impl ParseState<'_> {
 
     /// 解析复合词项
     fn segment_compound(&self, env: ParseEnv) -> ParseResult<(Term, ParseIndex)> {
+        #[cfg(narsese_verif)]
+        if verif_trace::wrap_this_call() {
+            let result = self.segment_compound(env);
+            verif_trace::segment("compound", env, &result);
+            return result;
+        }
         // 前缀匹配并跳过左括弧
         let (left, right) = self
             .format
@@ -863,6 +959,12 @@ impl ParseState<'_> {
     /// * 🚩方案：使用「原子词项前缀」结合「原子词项内容（首个字符）」作为判断依据
     /// ! ⚠️不能直接使用「原子词项前缀」作为判断依据：必须考虑**空前缀**情况
     fn segment_statement(&self, env: ParseEnv) -> ParseResult<(Term, ParseIndex)> {
+        #[cfg(narsese_verif)]
+        if verif_trace::wrap_this_call() {
+            let result = self.segment_statement(env);
+            verif_trace::segment("statement", env, &result);
+            return result;
+        }
         // 前缀匹配并跳过左括弧
         let (left, right) = self
             .format
